@@ -31,6 +31,36 @@ def model_line(stack, bits):
     return 'S parse %s %s' % (stack, tb(bits))
 
 
+def bytes_case(b, stack, bits, klass):
+    """the same parse on the byte-level model (ParserBytes.v: the slices, comparisons and integer reads the parsers perform on
+    Buffers): every field Buffer and the payload Buffer must be the same down to bytes, padding side and padding length"""
+    from core import raw
+    if stack == 'CoAP-semantic' or len(bits) > 12000:      # the byte-level model reads whole contents as numbers: large packets stay with the bit-level model
+        return
+    buf = mk(bits, L)
+    line = 'Y bparse %s %s' % (stack, raw(buf))
+
+    def f():
+        pd = parser_for(stack).parse(buf)
+        return (tuple((fid_of(x.id), x.position, raw(x.value)) for x in pd.fields), raw(pd.payload))
+    out = with_timeout(f, 5)
+
+    def parse(line_):
+        if line_.startswith('EXC '):
+            return ('EXC', line_[4:])
+        if line_ == 'DIVERGE':
+            return ('EXC', 'Diverge')
+        if not line_.startswith('OK'):
+            return ('BAD', line_)
+        fs, _, pl = line_[3:].rpartition('|')
+        fields = []
+        for tok in fs.split():
+            a, pos, r_ = tok.split('/')
+            fields.append(((a[0], int(a[1:])), int(pos), r_))
+        return ('OK', (tuple(fields), pl.strip()))
+    b.add('bytes:' + klass.split(':')[0], line, out, parse, None, dict(layer='parser-bytes', stack=stack, bits=bits if len(bits) < 4000 else bits[:4000] + '...'), key=line)
+
+
 def parse_model(line):
     if line.startswith('EXC '):
         return ('EXC', line[4:])
@@ -84,6 +114,22 @@ def malformed_stream(rnd, tier, per_seed=10):
                 b[j:j + 2] = rnd.choice([b'\0\0', b'\xff\xff', b'\0\1', b'\0\4', b'\xff\0'])
                 cases.append((stack, b2s(bytes(b)), 'length-field'))
         cases.append((stack, bits + randbits(rnd, rnd.randint(1, 7)), 'non-aligned'))
+    # 1..3 stray bytes at the end of a chunk value (chunk length not a multiple of 4), for every chunk type, bytes present in the buffer
+    for ctype in [0, 1, 2, 3, 4, 5, 6, 7, 8, 9, 10, 11, 14, 63] * (4 if T else 1):
+        raw, st = P.sctp_chunk(rnd, ctype)
+        clen = st['clen']
+        body = raw[:clen]
+        for r_ in (1, 2, 3):
+            nb = body + rnd.randbytes(r_)
+            nb = nb[:2] + (clen + r_).to_bytes(2, 'big') + nb[4:]
+            pkt, _ = P.sctp(rnd, chunks=[(P.pad4(nb), {})] + ([P.sctp_chunk(rnd)] if r_ == 2 else []))
+            cases.append(('SCTP', b2s(pkt), 'stray-bytes-in-chunk'))
+            if r_ == 1:
+                cases.append(('IPv6', b2s(P.ipv6(rnd, pkt, 132)), 'stray-bytes-in-chunk'))
+    for kind in ('params', 'data', 'sack'):
+        big, _ = P.sctp_large(rnd, kind)
+        cases.append(('SCTP', b2s(big), 'large-well-formed'))
+        cases.append(('IPv4', b2s(P.ipv4(rnd, big, 132)), 'large-well-formed'))
     for _ in range(12 if T else 3):
         j = P.sctp_jumbo_malformed(rnd)
         cases.append(('SCTP', b2s(j), 'jumbo-valueless-chunk'))
